@@ -26,6 +26,9 @@ func (e *Engine) toTermW(v V, w uint8) *Term {
 	if v.K == KSym {
 		return v.term()
 	}
+	if v.K == KOpq {
+		e.unsupported("a byte of an opaque (formatted from symbolic operands) string is inspected")
+	}
 	if v.K != KInt {
 		panic(fmt.Sprintf("toTermW: kind %d", v.K))
 	}
@@ -107,7 +110,15 @@ func mkStr(b []V) V {
 
 func isOpaqueStr(v V) bool {
 	if v.K == KSymStr {
-		return v.P.(*SymStr).Opaque
+		ss := v.P.(*SymStr)
+		if ss.Opaque {
+			return true
+		}
+		for _, b := range ss.B {
+			if b.K == KOpq {
+				return true
+			}
+		}
 	}
 	return false
 }
@@ -614,7 +625,9 @@ func (e *Engine) binopIntConc(op token.Token, w uint8, signed bool, ty types.Typ
 
 // equal returns a bool value (concrete or symbolic) for x == y.
 func (e *Engine) equal(x, y V) V {
-	// nil comparisons across representations
+	if x.K == KOpq || y.K == KOpq {
+		e.unsupported("a byte of an opaque (formatted from symbolic operands) string is compared")
+	}
 	switch {
 	case x.K == KInt && y.K == KInt:
 		return vBool(x.N == y.N)
@@ -870,7 +883,7 @@ func (e *Engine) decodeRuneAt(b []V, i int) (V, int) {
 		}
 	}
 	// multi-byte or invalid: interpret the library decoder on the (symbolic) tail
-	if fn := FindFunc(e.prog, "unicode/utf8", "DecodeRuneInString"); fn != nil {
+	if fn := e.lookupFunc("unicode/utf8.DecodeRuneInString"); fn != nil {
 		end := i + 4
 		if end > len(b) {
 			end = len(b)
@@ -903,7 +916,7 @@ func (e *Engine) encodeRunes(rs []V) V {
 			out = append(out, e.fromTerm(e.ts.Extract(t, 7, 0), false))
 			continue
 		}
-		fn := FindFunc(e.prog, "unicode/utf8", "AppendRune")
+		fn := e.lookupFunc("unicode/utf8.AppendRune")
 		if fn == nil {
 			e.unsupported("utf8 encoding of a symbolic rune: unicode/utf8 not loaded")
 		}
